@@ -49,6 +49,7 @@ def run (s : St) (args : List String) : St × String :=
   | ["ep.peerclose"] => ({ ep := shutdown s.ep, shut := true }, "closed")
   | ["ep.final"] => (s, finalStr s.ep)
   | "ep.closebusy" :: _ => (s, "ok")   -- Close closes the stream first: the pending write ends, then shutdown_closes_everything
+  | "ep.makelate" :: _ => (s, "ok")  -- registered_after_shutdown_is_closed / shutdown_closes_everything: in whichever order the table is taken
   | "ep.removebusy" :: _ => (s, "ok")  -- the dispatch is one critical section: whatever is asked meanwhile happens after it (closed_at_most_once, every_handler_accounted)
   | "ep.race" :: _ => (s, "ok")     -- Props/C17: exactly once on every interleaving
   | _ => (s, "bad-op")
